@@ -68,6 +68,8 @@ func (r *EngineRunner) execConc(f []string) string {
 		return r.concPark(f[2], f[3], f[4])
 	case "concstress":
 		return r.concStress(atoi(f[2]), atoi(f[3]), atoi(f[4]), uint64(atou(f[5])), f[6] == "1")
+	case "concmix":
+		return r.concMix(atoi(f[2]), atoi(f[3]), uint64(atou(f[4])))
 	}
 	return "err unknown-op"
 }
@@ -385,8 +387,8 @@ func (r *EngineRunner) concStress(clients, opsPer, nkeys int, seed uint64, withM
 	go func() { wg.Wait(); close(doneCh) }()
 	select {
 	case <-doneCh:
-	case <-time.After(60 * time.Second):
-		r.fail("C09", "the clients did not finish within 60 s (deadlock or livelock)")
+	case <-time.After(25 * time.Second):
+		r.fail("C09", "the clients did not finish within 25 s (deadlock or livelock)")
 		return "err stuck"
 	}
 	// per-key linearizability, and the final value of every key
@@ -536,3 +538,129 @@ func (r *EngineRunner) failSync(prop, format string, a ...interface{}) {
 }
 
 var _ = bytes.Equal
+
+// ---- C09: every kind of call at once -------------------------------------------------------------------
+// E concmix <clients> <opsPerClient> <seed>: free-running goroutines issuing a random mix of Put, Get,
+// Delete, ListKeys, Fold, iterator walks, Stat, Sync, batches and Merge.  No panic, no stall, no error
+// for calls that are individually valid; sorted, duplicate-free ListKeys / iterator output; under the
+// race detector (vh-race) no report.  The final state is not compared with the model.
+func (r *EngineRunner) concMix(clients, opsPer int, seed uint64) string {
+	savedEv, savedFs, savedMf := fio.VerifEvent, kv.VerifFsEvent, kv.VerifMergeFile
+	fio.VerifEvent, kv.VerifFsEvent, kv.VerifMergeFile = nil, nil, nil
+	defer func() { fio.VerifEvent, kv.VerifFsEvent, kv.VerifMergeFile = savedEv, savedFs, savedMf }()
+	var wg sync.WaitGroup
+	keys := make([][]byte, 6)
+	for i := range keys {
+		keys[i] = []byte(fmt.Sprintf("mk%02d", i))
+	}
+	var calls int64
+	sortedUnique := func(ks [][]byte, rev bool, what string) {
+		for i := 1; i < len(ks); i++ {
+			c := bytes.Compare(ks[i-1], ks[i])
+			if (!rev && c >= 0) || (rev && c <= 0) {
+				r.failSync("C09", "%s under concurrency is not strictly ordered: %s then %s", what, Obs(ks[i-1]), Obs(ks[i]))
+				return
+			}
+		}
+	}
+	for c := 0; c < clients; c++ {
+		wg.Add(1)
+		go func(c int) {
+			defer wg.Done()
+			defer func() {
+				if e := recover(); e != nil {
+					r.failSync("C09", "panic in client %d: %v", c, e)
+				}
+			}()
+			rng := NewRng(seed*7919 + uint64(c))
+			for i := 0; i < opsPer; i++ {
+				atomic.AddInt64(&calls, 1)
+				k := keys[rng.Intn(len(keys))]
+				switch x := rng.Intn(24); {
+				case x < 6:
+					if err := r.db.Put(k, []byte(fmt.Sprintf("v%d.%d.%s", c, i, strings.Repeat("x", rng.Intn(40))))); err != nil {
+						r.failSync("C09", "Put: %v", err)
+					}
+				case x < 9:
+					if err := r.db.Delete(k); err != nil {
+						r.failSync("C09", "Delete returned an error for an individually valid call: %v", err)
+					}
+				case x < 14:
+					if _, err := r.db.Get(k); err != nil && err != kv.ErrKeyNotFound {
+						r.failSync("C09", "Get: %v", err)
+					}
+				case x < 16:
+					sortedUnique(r.db.ListKeys(), false, "ListKeys")
+				case x < 17:
+					var ks [][]byte
+					if err := r.db.Fold(func(key, value []byte) bool { ks = append(ks, append([]byte(nil), key...)); return true }); err != nil {
+						r.failSync("C09", "Fold: %v", err)
+					}
+					sortedUnique(ks, false, "Fold")
+				case x < 19:
+					rev := rng.Intn(2) == 1
+					it := r.db.NewIterator(kv.IteratorOptions{Reverse: rev})
+					var ks [][]byte
+					for it.Rewind(); it.Valid(); it.Next() {
+						ks = append(ks, append([]byte(nil), it.Key()...))
+						if _, err := it.Value(); err != nil {
+							r.failSync("C09", "Iterator.Value: %v", err)
+							break
+						}
+					}
+					it.Close()
+					sortedUnique(ks, rev, "iterator")
+				case x < 20:
+					_ = r.db.Stat()
+				case x < 21:
+					if err := r.db.Sync(); err != nil {
+						r.failSync("C09", "Sync: %v", err)
+					}
+				case x < 23:
+					b := r.db.NewBatch(kv.BatchOptions{Sync: rng.Intn(2) == 1})
+					_ = b.Put(k, []byte(fmt.Sprintf("b%d.%d", c, i)))
+					_ = b.Delete(keys[rng.Intn(len(keys))])
+					_, _ = b.Get(k)
+					if err := b.Commit(); err != nil {
+						r.failSync("C09", "Batch.Commit: %v", err)
+					}
+				default:
+					if err := r.db.Merge(); err != nil && err != kv.ErrMergeIsProgress && err != kv.ErrMergeOutputTooLarge && err != kv.ErrMergeRatioUnreached {
+						r.failSync("C09", "Merge: %v", err)
+					}
+				}
+			}
+		}(c)
+	}
+	doneCh := make(chan struct{})
+	go func() { wg.Wait(); close(doneCh) }()
+	select {
+	case <-doneCh:
+	case <-time.After(25 * time.Second):
+		r.fail("C09", "the clients did not finish within 25 s (deadlock or livelock)")
+		return "err stuck"
+	}
+	// quiescent: live = recovered
+	live, lerr := dumpDB(r.db)
+	if lerr != nil {
+		r.fail("C09", "dump after the concurrent run failed: %v", lerr)
+	}
+	if err := r.db.Close(); err != nil {
+		r.fail("C09", "Close after the concurrent run failed: %v", err)
+	}
+	db2, err := kv.Open(r.opts)
+	if err != nil {
+		r.fail("C09", "Open after the concurrent run failed: %v", err)
+		return "err reopen"
+	}
+	r.db = db2
+	if rec, rerr := dumpDB(r.db); rerr != nil {
+		r.fail("C09", "dump after restart failed: %v", rerr)
+	} else if why, ok := sameMap(live, rec); !ok && lerr == nil {
+		r.fail("C08", "after a concurrent mix of all calls the restart recovers a different mapping: %s", why)
+	} else {
+		r.ref.m = rec
+		r.ref.maps[r.ref.curDir] = r.ref.m
+	}
+	return fmt.Sprintf("done # calls=%d", atomic.LoadInt64(&calls))
+}
